@@ -15,13 +15,18 @@ Changed(S, T) == {c \in DOMAIN S : S[c] # T[c]}
 Slim(S, o)    == [resp |-> o.resp, post |-> [c \in Changed(S, o.post) |-> o.post[c]]]
 
 \* (M) every transition of the model satisfies every step clause of every property
+\* (steps of the environment alone carry no request: nothing to judge, nothing to emit)
+IsRequest == act'.req.kind # "envchange"
+
 StepOk ==
+    ~IsRequest \/
     LET v == StepClauses(st, cenv, act'.req, act'.resp, st')
     IN Assert(v = {}, <<"CLAUSE-VIOLATION", v, "request", act'.req, "state", st>>)
 
 \* Evaluated by TLC on every generated transition (ACTION_CONSTRAINT), including
 \* stuttering ones and ones whose target state was seen before.
 Emit ==
+    ~IsRequest \/
     PrintT(ToJson([scen |-> Scenario, native |-> Native, from |-> st, env |-> cenv, req |-> act'.req,
                    outs |-> {Slim(st, o) : o \in act'.outs}]))
 
